@@ -25,24 +25,34 @@ inductive Stmt where
   | withBlock (kw : List (Key × Val)) (body : List Stmt)   -- `with global_options(**kw): body`
   | raise (e : String)
   | tryCatch (body : List Stmt)                             -- `try: body  except: pass`
+  | mutateCopy (k : Key) (v : Val)                          -- `d = get_options(); d[k] = v` (also `defaults=True`)
+  | observe                                                 -- the harness reads `get_options()` here
+
+/-- result of running a program: final options, how it ended, and what was observed on the way -/
+abbrev Res := Opts × Outcome × List Opts
 
 mutual
-def exec : List Stmt → Opts → Opts × Outcome
-  | [], o => (o, .normal)
-  | s :: rest, o =>
-    match exec1 s o with
-    | (o', .normal) => exec rest o'
+def exec : List Stmt → Opts → List Opts → Res
+  | [], o, log => (o, .normal, log)
+  | s :: rest, o, log =>
+    match exec1 s o log with
+    | (o', .normal, log') => exec rest o' log'
     | r => r
-def exec1 : Stmt → Opts → Opts × Outcome
-  | .set kw, o => setOptions o kw
-  | .raise e, o => (o, .raised e)
-  | .tryCatch body, o => ((exec body o).1, .normal)
-  | .withBlock kw body, o =>
+def exec1 : Stmt → Opts → List Opts → Res
+  | .set kw, o, log => ((setOptions o kw).1, (setOptions o kw).2, log)
+  | .raise e, o, log => (o, .raised e, log)
+  | .mutateCopy _ _, o, log => (o, .normal, log)          -- `get_options` hands out a detached copy
+  | .observe, o, log => (o, .normal, log ++ [o])
+  | .tryCatch body, o, log => ((exec body o log).1, .normal, (exec body o log).2.2)
+  | .withBlock kw body, o, log =>
     -- options = get_options(); set_options(**kwargs); try: yield finally: set_options(**options)
     match setOptions o kw with
-    | (_, .raised e) => (o, .raised e)
+    | (_, .raised e) => (o, .raised e, log)
     | (o1, .normal) =>
-      let r := exec body o1
-      ((setOptions r.1 o).1, r.2)
+      let r := exec body o1 log
+      ((setOptions r.1 o).1, r.2.1, r.2.2)
 end
+
+/-- `get_options(defaults=True)`: the shipped defaults, whatever happened before -/
+def getDefaults (defaults : Opts) (_current : Opts) : Opts := defaults
 end Np.Opt
